@@ -101,14 +101,16 @@ def scenario_lines(sid, b, checks, ops):
     return out
 
 
-def tlc_scenarios(ctx, rules, b, leaves, cfgname, label):
-    """model-check the walker for this rule list (must pass) and collect the terminal states it prints"""
+def tlc_scenarios(ctx, configs, two, cfgname, label):
+    """model-check the walker for all rule lists in one TLC run (must pass) and collect the terminal states it prints;
+    configs: list of (label, Builder, rules, leaves); two: indices of the configurations explored with two concurrent checks"""
     d = vlib.mkdirs(os.path.join(ctx.work, 'cfg'))
     path = os.path.join(d, label + '.ndjson')
     with open(path, 'w') as f:
-        f.write(json.dumps({'rules': rules, 'leaves': leaves, 'base': b.base or {'none': 'none'}}) + '\n')
-    res = vlib.tlc_must_pass(ctx, os.path.join(A.SPEC, 'MC_AclTree.tla'), os.path.join(A.SPEC, cfgname), env={'CFG': path}, workers=4,
-                             timeout=1500, label=label)
+        for ci, (lab, b, rules, leaves) in enumerate(configs):
+            f.write(json.dumps({'rules': rules, 'leaves': leaves, 'base': b.base or {'none': 'none'}, 'two': ci in two}) + '\n')
+    res = vlib.tlc_must_pass(ctx, os.path.join(A.SPEC, 'MC_AclTree.tla'), os.path.join(A.SPEC, cfgname), env={'CFG': path},
+                             timeout=3000, label=label)
     scen = []
     for line in res.out.splitlines():
         m = re.match(r'<<"SCEN", "(.*)">>\s*$', line)
@@ -144,15 +146,17 @@ def run(ctx):
     for k in range(6 if ctx.thorough else 2):
         b, rules, leaves = random_config(rnd, 3)
         configs.append(('seeded random #%d' % k, b, rules, leaves))
+    two = set(ci for ci, (lab, b, rules, leaves) in enumerate(configs) if len(leaves) <= 3 and (ctx.thorough or ci < 3))
+    s1 = tlc_scenarios(ctx, configs, two, 'MC_AclTree.cfg', 'mc1')
+    s2 = tlc_scenarios(ctx, configs, two, 'MC_AclTree_2.cfg', 'mc2')
+    cap = 6000 if ctx.thorough else 1400
+    if len(s2) > cap:
+        s2 = rnd.sample(s2, cap)
     for ci, (lab, b, rules, leaves) in enumerate(configs):
-        s1 = tlc_scenarios(ctx, rules, b, leaves, 'MC_AclTree.cfg', 'mc1-%d' % ci)
-        two = ctx.thorough or ci < 3
-        s2 = tlc_scenarios(ctx, rules, b, leaves, 'MC_AclTree_2.cfg', 'mc2-%d' % ci) if two and len(leaves) <= 3 else []
-        if len(s2) > (4000 if ctx.thorough else 700):
-            s2 = rnd.sample(s2, 4000 if ctx.thorough else 700)
-        per_cfg[lab] = {'one_check': len(s1), 'two_checks': len(s2)}
-        for s in s1 + s2:
-            scen.append((lab, b, rules, [{'truth': c['truth'], 'mode': c['mode']} for c in s['checks']], s['ops'], s))
+        per_cfg[lab] = {'one_check': sum(1 for s in s1 if s['g'] == ci + 1), 'two_checks_realised': sum(1 for s in s2 if s['g'] == ci + 1)}
+    for s in s1 + s2:
+        lab, b, rules, leaves = configs[s['g'] - 1]
+        scen.append((lab, b, rules, [{'truth': c['truth'], 'mode': c['mode']} for c in s['checks']], s['ops'], s))
     ntlc = len(scen)
     ctx.log('design step passed for %d configurations; %d scenarios enumerated by TLC' % (len(configs), ntlc))
     # fast checks over the same configurations (all valuations; leaves that need no lookup -> P applies; others -> I only)
